@@ -131,7 +131,7 @@ Proof. exact Known_alpn_single_char_refuted. Qed.
 Print Assumptions C04_Known_alpn_refuted.
 Theorem C04_Known_version_refuted :
   (exists h, wf h = true /\ known_version h = true /\ result_line (parse_tls_client_hello (encode_hello h)) <> Ja4Spec.line h).
-Proof. exact Known_version_only_grease_refuted. Qed.
+Proof. exact Known_version_ssl2_refuted. Qed.
 Print Assumptions C04_Known_version_refuted.
 Theorem C04_Known_pseudo_grease_refuted :
   (exists h, wf h = true /\ known_pseudo_grease h = true /\ result_line (parse_tls_client_hello (encode_hello h)) <> Ja4Spec.line h).
